@@ -189,7 +189,11 @@ func c04Run(c *Ctx) {
 			c.Sample(func() any { return map[string]any{"string": s, "valid": valid, "compound": compound} })
 		}
 		if msg != "" {
-			c.Report(Violation{Kind: "c04.case", Class: "string:" + errShape(msg), Key: "string:" + s, Msg: msg, Size: len(s),
+			cl := msg
+			if i := strings.Index(cl, "("); i > 0 {
+				cl = cl[:i]
+			}
+			c.Report(Violation{Kind: "c04.case", Class: "string:" + cl, Key: "string:" + s, Msg: msg, Size: len(s),
 				Case: mustJSON(c04Case{Kind: "string", S: s, Compound: compound})})
 		}
 	}
